@@ -6,6 +6,8 @@ import (
 	"go/constant"
 	"go/token"
 	"go/types"
+	"sort"
+	"strings"
 
 	"golang.org/x/tools/go/ssa"
 
@@ -29,6 +31,7 @@ func checkC20(c *Ctx) {
 	r.Trusted = []string{"go/types constant evaluation", "internal/tables evaluator", "spec/time.json transcription", "package time (Date, Before, Add, Sub)"}
 	r.Rule("R1.leap", "leapSecondsTable = the 18 published leap-second instants, Duration = 1 s each, strictly ascending")
 	r.Rule("R2.epoch", "gpsEpochTime = 1980-01-06 00:00:00 UTC")
+	r.Rule("R6.eirp-encode", "GetTXParamSetupEIRPIndex depends on the power only through comparisons with eirpTable entries, and on each of the 32 order types returns the largest index whose entry does not exceed the power")
 	r.Rule("R3.eirp", "eirpTable = 8,10,12,13,14,16,18,20,21,24,26,27,29,30,33,36 strictly increasing; decode index guarded")
 	r.Rule("R4.coverage", "each GPS conversion function visits every index of leapSecondsTable and applies ls.Duration under the ls.Time.Before(t) test")
 	r.Rule("R5.divmul", "in package airtime no integer product has a factor that is the result of a truncating non-constant integer division")
@@ -130,6 +133,15 @@ func checkC20(c *Ctx) {
 		}
 	}
 	c20EIRPGuard(c)
+	var tbl []float64
+	if esl != nil {
+		for _, e := range esl.Elems {
+			if f, ok := e.(tables.Float); ok {
+				tbl = append(tbl, f.V)
+			}
+		}
+	}
+	c20EIRPEncode(c, ev2, tbl)
 	c20DivMul(c)
 }
 
@@ -459,4 +471,150 @@ func c20DivMul(c *Ctx) {
 			}
 		}
 	}
+}
+
+// c20EIRPEncode decides the encode clause of the EIRP coding: (a) structurally, the power parameter reaches the
+// result only through comparisons against entries of eirpTable (so the function is constant on each order type of the
+// power relative to the 16 entries), and (b) for one representative of each of the 32 order types at or above the
+// first entry (equal to entry i; strictly between entries i and i+1; above the last) the constant-propagated result
+// is the largest index whose entry does not exceed the power.
+func c20EIRPEncode(c *Ctx, ev *tables.Evaluator, tbl []float64) {
+	r := c.Run
+	P := c.Prog
+	const fnName = "GetTXParamSetupEIRPIndex"
+	fn := P.SSAFunc("", fnName)
+	fd := load.FuncDecl(P.Pkg(""), fnName)
+	if fn == nil || fd == nil || len(fn.Params) != 1 {
+		r.Unknown("R6.eirp-encode", "lorawan."+fnName, "", "anchor function with one parameter", "missing")
+		return
+	}
+	var g *ssa.Global
+	if m, ok := fn.Pkg.Members["eirpTable"].(*ssa.Global); ok {
+		g = m
+	}
+	// (a) uses of the parameter
+	var bad []string
+	seen := map[ssa.Value]bool{}
+	ncmp := 0
+	var visit func(v ssa.Value)
+	visit = func(v ssa.Value) {
+		if seen[v] {
+			return
+		}
+		seen[v] = true
+		refs := v.Referrers()
+		if refs == nil {
+			return
+		}
+		for _, ins := range *refs {
+			switch x := ins.(type) {
+			case *ssa.DebugRef:
+			case *ssa.Convert:
+				// exact widening float32 -> float64 keeps the value
+				if bt, ok := x.Type().Underlying().(*types.Basic); ok && bt.Kind() == types.Float64 {
+					visit(x)
+				} else {
+					bad = append(bad, fmt.Sprintf("%s: conversion to %s", P.Rel(x.Pos()), x.Type()))
+				}
+			case *ssa.BinOp:
+				switch x.Op {
+				case token.LSS, token.LEQ, token.GTR, token.GEQ:
+					other := x.X
+					if other == v {
+						other = x.Y
+					}
+					if g == nil || !derivesFromGlobal(other, g, map[ssa.Value]bool{}) {
+						bad = append(bad, fmt.Sprintf("%s: compared with %s, not an entry of eirpTable", P.Rel(x.Pos()), other))
+					}
+					ncmp++
+				default:
+					bad = append(bad, fmt.Sprintf("%s: arithmetic %s on the power before it is compared", P.Rel(x.Pos()), x.Op))
+				}
+			default:
+				bad = append(bad, fmt.Sprintf("%s: used by %T", P.Rel(ins.Pos()), ins))
+			}
+		}
+	}
+	visit(fn.Params[0])
+	sort.Strings(bad)
+	okA := len(bad) == 0 && ncmp > 0
+	r.Check(okA, "R6.eirp-encode", "lorawan."+fnName+"/compare-only", P.Rel(fn.Pos()),
+		"the power is used only as the unmodified operand of ordering comparisons with eirpTable entries", fmt.Sprintf("%d comparisons; %s", ncmp, strings.Join(bad, "; ")), true)
+	if !okA || len(tbl) == 0 {
+		return
+	}
+	// (b) one representative per order type
+	type rep struct {
+		x    float64
+		want int
+		name string
+	}
+	var reps []rep
+	for i, t := range tbl {
+		reps = append(reps, rep{t, i, fmt.Sprintf("equal-entry-%d", i)})
+		if i+1 < len(tbl) {
+			reps = append(reps, rep{(t + tbl[i+1]) / 2, i, fmt.Sprintf("between-%d-%d", i, i+1)})
+		} else {
+			reps = append(reps, rep{t + 1, i, "above-last"})
+		}
+	}
+	for _, rp := range reps {
+		res, ok := ev.Call(fd, map[string]tables.Value{fd.Type.Params.List[0].Names[0].Name: tables.Float{V: rp.x}})
+		key := "lorawan." + fnName + "/order-type/" + rp.name
+		if !ok || len(res) != 1 {
+			r.Unknown("R6.eirp-encode", key, P.Rel(fn.Pos()), "constant propagation decides the result", "outside the evaluator's subset: "+strings.Join(ev.Diag, "; "))
+			continue
+		}
+		got, isInt := tables.AsInt(res[0])
+		r.Check(isInt && got == rp.want, "R6.eirp-encode", key, P.Rel(fn.Pos()), fmt.Sprintf("index %d for a power of %v dBm (largest entry not exceeding it)", rp.want, rp.x), tables.Show(res[0]), true)
+	}
+}
+
+// derivesFromGlobal: v is computed from a load of g (through element addressing, loads, range extraction and local copies).
+func derivesFromGlobal(v ssa.Value, g *ssa.Global, seen map[ssa.Value]bool) bool {
+	if v == g {
+		return true
+	}
+	if seen[v] {
+		return false
+	}
+	seen[v] = true
+	switch x := v.(type) {
+	case *ssa.UnOp:
+		return derivesFromGlobal(x.X, g, seen)
+	case *ssa.IndexAddr:
+		return derivesFromGlobal(x.X, g, seen)
+	case *ssa.Index:
+		return derivesFromGlobal(x.X, g, seen)
+	case *ssa.FieldAddr:
+		return derivesFromGlobal(x.X, g, seen)
+	case *ssa.Slice:
+		return derivesFromGlobal(x.X, g, seen)
+	case *ssa.Convert:
+		return derivesFromGlobal(x.X, g, seen)
+	case *ssa.ChangeType:
+		return derivesFromGlobal(x.X, g, seen)
+	case *ssa.Phi:
+		for _, e := range x.Edges {
+			if !derivesFromGlobal(e, g, seen) {
+				return false
+			}
+		}
+		return len(x.Edges) > 0
+	case *ssa.Alloc:
+		// a local copy: every store into it must come from g
+		n := 0
+		if refs := x.Referrers(); refs != nil {
+			for _, ins := range *refs {
+				if st, ok := ins.(*ssa.Store); ok && st.Addr == x {
+					n++
+					if !derivesFromGlobal(st.Val, g, seen) {
+						return false
+					}
+				}
+			}
+		}
+		return n > 0
+	}
+	return false
 }
